@@ -31,6 +31,7 @@ type FuncContract struct {
 	LoopPresume  map[int][]Clause // assumed at the loop header, never checked (listed as assumptions)
 	LoopDec      map[int]Clause
 	LoopMod      map[int][]SExpr
+	LoopGhost    map[int][]GhostVar // loop-carried ghost variables (name, sort, initial value, update at the back edge)
 	Asserts      []Clause
 	Trusted      bool // contract assumed, body not verified (externals)
 	Inline       bool // always inline at call sites, contract (if any) ignored by callers
@@ -283,6 +284,30 @@ func (cs *Contracts) loadContractText(path, pkg, text string) error {
 					}
 					cur.LoopMod[n] = append(cur.LoopMod[n], e)
 				}
+			case "ghost":
+				// loop <n> ghost <name> <sort> := <init> ;; <next>
+				j := strings.Index(body, ":=")
+				k := strings.Index(body, ";;")
+				if j < 0 || k < j {
+					return fail(fmt.Errorf("loop <n> ghost <name> <sort> := <init> ;; <next>"))
+				}
+				hd := strings.TrimSpace(body[:j])
+				sp := strings.IndexAny(hd, " \t")
+				if sp < 0 {
+					return fail(fmt.Errorf("ghost needs a name and a sort"))
+				}
+				ie, err := parseSpecExpr(body[j+2 : k])
+				if err != nil {
+					return fail(err)
+				}
+				ne, err := parseSpecExpr(body[k+2:])
+				if err != nil {
+					return fail(err)
+				}
+				if cur.LoopGhost == nil {
+					cur.LoopGhost = map[int][]GhostVar{}
+				}
+				cur.LoopGhost[n] = append(cur.LoopGhost[n], GhostVar{Name: hd[:sp], Sort: strings.TrimSpace(hd[sp:]), Init: ie, Next: ne, Where: where})
 			default:
 				return fail(fmt.Errorf("unknown loop clause %s", f[1]))
 			}
@@ -402,8 +427,8 @@ func (cs *Contracts) loadContractText(path, pkg, text string) error {
 		case "ghost":
 			// ghost field (*T) name Sort
 			f := strings.Fields(rest)
-			if len(f) == 3 && f[0] == "global" {
-				cs.GhostGlobals[f[1]] = f[2]
+			if len(f) >= 3 && f[0] == "global" {
+				cs.GhostGlobals[f[1]] = strings.Join(f[2:], " ")
 				cur = nil
 				break
 			}
@@ -438,6 +463,15 @@ func splitCommaTop(s string) []string {
 		out = append(out, strings.TrimSpace(s[start:]))
 	}
 	return out
+}
+
+// GhostVar is a loop-carried ghost variable: a specification-only value that starts at Init when
+// the loop is entered and becomes Next at every back edge. It records history (e.g. the sequence
+// of intermediate results) so that invariants and postconditions can speak about it.
+type GhostVar struct {
+	Name, Sort string
+	Init, Next SExpr
+	Where      string
 }
 
 type EffectClause struct {
